@@ -53,3 +53,8 @@ impl Archive {
         std::mem::forget(self.block_table.take());
     }
 }
+
+impl Archive {
+    /// harness helper: archives are told apart by this value
+    pub(crate) fn verif_set_offset(&mut self, v: u64) { self.archive_offset = v; }
+}
